@@ -405,7 +405,9 @@ func c33Parked(run *mon.Run, ctx context.Context, w *world.World, mc *miner.Chai
 		if mech == "timeout-count-ahead" {
 			roundTC = 1 + rr.Intn(2)
 		}
-		msgOf := func(round int64, tc int) string { return fmt.Sprintf("%v%v%v", round, tc, strconv.FormatInt(prevSeed, 16)) }
+		msgOf := func(round int64, tc int) string {
+			return fmt.Sprintf("%v%v%v", round, tc, strconv.FormatInt(prevSeed, 16))
+		}
 		msg := msgOf(rn, roundTC)
 
 		// reference verdict of one share message
@@ -512,10 +514,10 @@ func c33Parked(run *mon.Run, ctx context.Context, w *world.World, mc *miner.Chai
 			bad = append(bad, m)
 		}
 		classOf := map[string]string{}
-		key := func(party int, share string) string { return fmt.Sprintf("%d|%s", party, share) }
+		key := func(party int, share string, tc int) string { return fmt.Sprintf("%d|%d|%s", party, tc, share) }
 		for _, m := range append(append([]c33PMsg{}, valid...), bad...) {
-			if _, ok := classOf[key(m.party, m.share)]; !ok {
-				classOf[key(m.party, m.share)] = m.class
+			if _, ok := classOf[key(m.party, m.share, m.tc)]; !ok {
+				classOf[key(m.party, m.share, m.tc)] = m.class
 			}
 		}
 		shuffled := func(in []c33PMsg) []c33PMsg {
@@ -624,7 +626,7 @@ func c33Parked(run *mon.Run, ctx context.Context, w *world.World, mc *miner.Chai
 				nd.validSeen[m.party] = true
 			}
 			if phase == "early" {
-				nd.earlyKeys[key(m.party, m.share)] = true
+				nd.earlyKeys[key(m.party, m.share, m.tc)] = true
 				run.Count("c33.parked_delivered_early."+m.class, 1)
 			}
 			heldBefore := map[string]bool{}
@@ -659,11 +661,11 @@ func c33Parked(run *mon.Run, ctx context.Context, w *world.World, mc *miner.Chai
 					bad("C33:share-stored-under-wrong-party", "key "+k)
 					return
 				}
-				cl := classOf[key(pi, sh.Share)]
+				cl := classOf[key(pi, sh.Share, sh.GetRoundTimeoutCount())]
 				if cl == "" {
 					cl = "unknown"
 				}
-				wasParked := nd.earlyKeys[key(pi, sh.Share)]
+				wasParked := nd.earlyKeys[key(pi, sh.Share, sh.GetRoundTimeoutCount())]
 				if !heldBefore[k] {
 					if wasParked {
 						run.Count("c33.parked_share_counted_from_cache", 1)
